@@ -61,7 +61,7 @@ theorem collectBlock_eq_declaredBlock (T : Name) (specs : List VSpec)
       cases hid : s.tyIdent with
       | true =>
         simp only [Option.isNone_some, Bool.false_and, Bool.false_eq_true, ↓reduceIte, effTy, hty,
-          Option.isSome_some, hid, Bool.not_true, Bool.and_false]
+          Option.isSome_some, Bool.not_true, Bool.and_false]
         have := ih' (some t) (some t) (Or.inl rfl)
         by_cases htt : some t = some T
         · simp [htt] at this ⊢; exact this
@@ -73,7 +73,7 @@ theorem collectBlock_eq_declaredBlock (T : Name) (specs : List VSpec)
           · rw [hid] at h1; exact absurd h1 (by simp)
           · rw [hty] at h2; exact h2.2
         simp only [Option.isNone_some, Bool.false_and, Bool.false_eq_true, ↓reduceIte, effTy, hty,
-          Option.isSome_some, hid, Bool.not_false, Bool.and_self, htT, List.nil_append]
+          Option.isSome_some, Bool.not_false, Bool.and_self, htT, List.nil_append]
         exact ih' typ (some t) (Or.inr (Or.inr ⟨htT, noCarry_head hn hid (by rw [hty]; rfl)⟩))
     | none =>
       cases hv : s.hasVals with
